@@ -551,41 +551,51 @@ into the bridge under `tunnelConnMu`, also after an earlier `Close` (a handler t
 bridge up before it was closed).  Every `Close` call re-runs the connection teardown (close and
 nil under the locks); only the dispose latch is once-only — that is what lets
 `runBridgeLifecycle`'s deferred `Close` tear down a connection attached after an earlier `Close`.
-`guard = true` is the rejected variant "already closed → return" at the top of `Close`. -/
+`guard = true` is the rejected variant "already closed → return" at the top of `Close`.
+Since /repo 20329a5 a late or duplicate attachment is refused and closed by the setter itself. -/
 
 structure AShared where
   srcTC : Bool            -- sourceTunnelConn non-nil
   tgtTC : Bool
-  satt : Nat              -- source / target connections ever attached
+  satt : Nat              -- source / target connections ever handed to SetSource/SetTargetConnection
   stc : Nat               -- Close calls on source / target tunnel connections
   tatt : Nat
   ttc : Nat
   lostS : Nat             -- connections overwritten by a later attach while still attached
   lostT : Nat
   closed : Bool           -- dispose latch
+  tornDown : Bool         -- Close has torn the connections down once (set under tunnelConnMu)
   deriving DecidableEq, Repr
 
 inductive APc | a1 | a2 | a3 | attS | attT | done
   deriving DecidableEq, Repr
 
-def aStep (guard : Bool) (_tid : Nat) (sh : AShared) (l : APc) : AShared × APc :=
+/-- `refuse` (the code since /repo 20329a5): `SetTargetConnection` turns away — and closes — a
+connection when the bridge is torn down or already has a target, `SetSourceConnection` when the
+bridge is torn down.  `refuse = false` is the code before that repair. -/
+def aStep (guard refuse : Bool) (_tid : Nat) (sh : AShared) (l : APc) : AShared × APc :=
   match l with
   | .a1 => if guard && sh.closed then (sh, .done) else (sh, .a2)      -- sourceConnMu section (forwarder)
-  | .a2 => ({ sh with srcTC := false, tgtTC := false, stc := sh.stc + b2n sh.srcTC, ttc := sh.ttc + b2n sh.tgtTC }, .a3)
+  | .a2 => ({ sh with srcTC := false, tgtTC := false, stc := sh.stc + b2n sh.srcTC, ttc := sh.ttc + b2n sh.tgtTC,
+                      tornDown := true }, .a3)
   | .a3 => ({ sh with closed := true }, .done)
-  | .attS => ({ sh with srcTC := true, satt := sh.satt + 1, lostS := sh.lostS + b2n sh.srcTC }, .done)
-  | .attT => ({ sh with tgtTC := true, tatt := sh.tatt + 1, lostT := sh.lostT + b2n sh.tgtTC }, .done)
+  | .attS =>
+    if refuse && sh.tornDown then ({ sh with satt := sh.satt + 1, stc := sh.stc + 1 }, .done)
+    else ({ sh with srcTC := true, satt := sh.satt + 1, lostS := sh.lostS + b2n sh.srcTC }, .done)
+  | .attT =>
+    if refuse && (sh.tornDown || sh.tgtTC) then ({ sh with tatt := sh.tatt + 1, ttc := sh.ttc + 1 }, .done)
+    else ({ sh with tgtTC := true, tatt := sh.tatt + 1, lostT := sh.lostT + b2n sh.tgtTC }, .done)
   | .done => (sh, .done)
 
-def aProg (guard : Bool) : Prog AShared APc := ⟨aStep guard⟩
+def aProg (guard refuse : Bool) : Prog AShared APc := ⟨aStep guard refuse⟩
 
 /-- A bridge created with its source connection. -/
-def aInit (pcs : List APc) : Cfg AShared APc := ⟨⟨true, false, 1, 0, 0, 0, 0, 0, false⟩, pcs⟩
+def aInit (pcs : List APc) : Cfg AShared APc := ⟨⟨true, false, 1, 0, 0, 0, 0, 0, false, false⟩, pcs⟩
 
 /-- One uninterrupted `Close` call (the last one: `runBridgeLifecycle`'s deferred Close). -/
 def closeSeq (guard : Bool) (sh : AShared) : AShared :=
-  match (aStep guard 0 sh .a1).2 with
-  | .a2 => (aStep guard 0 (aStep guard 0 sh .a2).1 .a3).1
+  match (aStep guard true 0 sh .a1).2 with
+  | .a2 => (aStep guard true 0 (aStep guard true 0 sh .a2).1 .a3).1
   | _ => sh
 
 /-! ## Client mapping handler: reportStats (periodic loop ‖ final report on Close)
